@@ -1,5 +1,37 @@
 import Ptn.C18.Model
-/-! Line-protocol handler for the C18 model (core Lean only). -/
+/-! Line-protocol handler for the C18 model (core Lean only).
+
+  numsteps <num> <den>      → numSteps (num/den)
+  sched <n> <k|inf>         → `<ncols>;<col>:<step>,<col>:<step>,…` (chronological writes)
+  opidx <key> <k1> … <km>   → row of `key` in a dict with keys k1…km, or `none`
+-/
 namespace Ptn.C18
-def handle (args : List String) : String := "bad-op"
+
+def handle (args : List String) : String :=
+  match args with
+  | ["numsteps", a, b] =>
+    match a.toInt?, b.toNat? with
+    | some num, some den => if den = 0 then "bad-op" else toString (numSteps (mkRat num den))
+    | _, _ => "bad-op"
+  | ["sched", a, b] =>
+    match a.toNat? with
+    | none => "bad-op"
+    | some n =>
+      let ev? : Option EvalTime :=
+        if b = "inf" then some none else
+          match b.toNat? with
+          | some k => if k = 0 then none else some (some k)   -- k = 0 raises ZeroDivisionError
+          | none => none
+      match ev? with
+      | none => "bad-op"
+      | some ev =>
+        let r := run (fun s : Nat => s + 1) (fun s => s) n ev 0
+        let ws := r.2.map fun w => s!"{w.col}:{w.stepNo}:{w.val}"
+        s!"{numCols n ev};{r.1};" ++ ",".intercalate ws
+  | "opidx" :: key :: ks =>
+    match operatorIndex (.dict ks) key with
+    | some i => toString i
+    | none => "none"
+  | _ => "bad-op"
+
 end Ptn.C18
